@@ -11913,3 +11913,99 @@ func E11ArcJoinDirectionFlags(c *core.Ctx, r *core.Report) {
 		}
 	}
 }
+
+// E11ViewBoxSeparators: the four numbers of a viewBox are split at white space and commas.
+func E11ViewBoxSeparators(c *core.Ctx, r *core.Report) {
+	r.Rule("E11.viewbox-separators", "SVG writes the viewBox as four numbers separated by white space and/or a comma. svgParser.parseViewBox therefore does not cut the attribute with strings.Split at one fixed separator (which rejects `0,0,50,50` and a doubled space with 'bad viewBox' and leaves the drawing unscaled): the list is obtained from strings.FieldsFunc with a predicate that names both the space and the comma, from strings.Fields after commas were replaced, or from one of the importer's own number-list readers")
+	p := c.MustPkg("")
+	info := p.TypesInfo
+	fd := core.MustFuncDecl(p, "svgParser.parseViewBox")
+	r.Func("canvas.svgParser.parseViewBox")
+	key := "canvas.svgParser.parseViewBox|numbers separated by white space and/or commas"
+	r.Count("E11.viewbox-separators", 1)
+	// the attribute: the last string parameter
+	var attr types.Object
+	for _, f := range fd.Type.Params.List {
+		for _, nm := range f.Names {
+			if b, ok := info.TypeOf(f.Type).Underlying().(*types.Basic); ok && b.Kind() == types.String {
+				attr = info.Defs[nm]
+			}
+		}
+	}
+	mentionsAttr := func(e ast.Node) bool {
+		hit := false
+		ast.Inspect(e, func(m ast.Node) bool {
+			if id, ok := m.(*ast.Ident); ok && core.ObjOf(info, id) == attr {
+				hit = true
+			}
+			return !hit
+		})
+		return hit
+	}
+	verdict, pos, why := "", fd.Pos(), ""
+	ast.Inspect(fd.Body, func(m ast.Node) bool {
+		call, ok := m.(*ast.CallExpr)
+		if !ok || len(call.Args) == 0 || !mentionsAttr(call.Args[0]) {
+			return true
+		}
+		f := core.CalleeOf(info, call)
+		if f == nil {
+			return true
+		}
+		q := f.Name()
+		if f.Pkg() != nil && f.Pkg().Path() == "strings" {
+			q = "strings." + q
+		}
+		switch q {
+		case "strings.Split", "strings.SplitN":
+			verdict, pos, why = "bad", call.Pos(), fmt.Sprintf("`%s` cuts the attribute at one fixed separator: a comma-separated viewBox (`0,0,50,50`) or two spaces between numbers give 'bad viewBox' and the drawing is not scaled", types.ExprString(call))
+		case "strings.FieldsFunc":
+			if len(call.Args) == 2 {
+				hasComma, hasSpace := false, false
+				ast.Inspect(call.Args[1], func(k ast.Node) bool {
+					if e, ok := k.(ast.Expr); ok {
+						if v, isInt := core.ConstInt(info, e); isInt {
+							if v == ',' {
+								hasComma = true
+							}
+							if v == ' ' {
+								hasSpace = true
+							}
+						}
+						if ce, ok := e.(*ast.CallExpr); ok {
+							if g := core.CalleeOf(info, ce); g != nil && g.Name() == "IsSpace" {
+								hasSpace = true
+							}
+						}
+					}
+					return true
+				})
+				if hasComma && hasSpace && verdict == "" {
+					verdict, pos = "ok", call.Pos()
+				} else if verdict == "" {
+					verdict, pos, why = "bad", call.Pos(), "the separator predicate does not name both the space and the comma"
+				}
+			}
+		case "strings.Fields":
+			// fine if commas were replaced in the argument
+			if ce, ok := core.Unparen(call.Args[0]).(*ast.CallExpr); ok {
+				if g := core.CalleeOf(info, ce); g != nil && strings.HasPrefix(g.Name(), "Replace") && verdict == "" {
+					verdict, pos = "ok", call.Pos()
+				}
+			}
+		default:
+			if f.Pkg() == p.Types && (strings.Contains(f.Name(), "parsePoints") || strings.Contains(f.Name(), "parseNumbers")) && verdict == "" {
+				verdict, pos = "ok", call.Pos()
+			}
+		}
+		return true
+	})
+	switch verdict {
+	case "ok":
+		r.OK("E11.viewbox-separators", key, c.Pos(pos), "")
+	case "bad":
+		r.Fail("E11.viewbox-separators", key, c.Pos(pos), why)
+	default:
+		r.Fail("E11.viewbox-separators", key, c.Pos(pos), "the call that splits the viewBox attribute into its numbers was not recognised (strings.FieldsFunc with a predicate for space and comma, strings.Fields after replacing commas, or the importer's number-list reader)")
+	}
+}
